@@ -62,7 +62,6 @@ class DiskElementUnit(Unit):
 
     def init_solve(self, in_profile: BaseProfile):
         super().init_solve(in_profile)
-        if not self._subunits:
-            self._subunits = self._SubUnitsList(
-                self, [self.DiskElement(self, i) for i in range(self.disk_element_count)]
-            )
+        if len(self._subunits) != self.disk_element_count:
+            self._subunits.clear()
+            self._subunits.extend([self.DiskElement(self, i) for i in range(self.disk_element_count)])
